@@ -54,3 +54,4 @@ Example C01_example :
      SDecay "B" []; SDecay "A" []])
   = vtables [("A", [{| l_bf := 1#2; l_fs := ["x~"; "K+"]; l_photos := true; l_model := "PHSP"; l_params := None |}]); ("B", [])].
 Proof. vm_compute. reflexivity. Qed.
+Print Assumptions C01_numeric_parameter.
